@@ -9,8 +9,7 @@ package module
 //@   nilok
 //@   nopanic
 //@   ensures result != nil
-//@ assume func reflect.ValueOf
-//@   nopanic
+// (reflect.ValueOf is given its contract in agent/contracts_verif.go)
 
 //@ func Association
 //@   props C20
@@ -57,6 +56,28 @@ package module
 //@   ensures[C20] len(arguments) == 1 && typeis(arguments[0], "uint") && unboxInt(arguments[0]) > 0 ==> view(result) == empty() && capacity(result) == unboxInt(arguments[0])
 //@   ensures[C20] len(arguments) == 1 && typeis(arguments[0], sliceof(V)) ==> view(result) == view(unboxSlice(arguments[0]))
 //@   ensures[C20] len(arguments) == 1 && typeis(arguments[0], "string") && len(unboxStr(arguments[0])) > 0 ==> view(result) == view(parsedval(unboxStr(arguments[0])))
+//@   loop 1:
+//@     invariant -1 <= rangeindex && rangeindex <= 0 && rangeindex < len(arguments) && notation != nil
+//@     invariant rangeindex == -1 ==> capacity == 0 && len(values) == 0 && arr(values) == nil && sequence == nil && source == ""
+//@     invariant rangeindex == 0 && typeis(arguments[0], "uint") ==> capacity == unboxInt(arguments[0]) && len(values) == 0 && sequence == nil && source == ""
+//@     invariant rangeindex == 0 && typeis(arguments[0], sliceof(V)) ==> capacity == 0 && values == unboxSlice(arguments[0]) && sequence == nil && source == ""
+//@     invariant rangeindex == 0 && typeis(arguments[0], "string") ==> capacity == 0 && source == unboxStr(arguments[0]) && len(values) == 0 && sequence == nil
+//@     decreases 1 - rangeindex
+//@   loop 2:
+//@     invariant snap(iterator) == view(parsedval(source)) && 0 <= pos(iterator) && pos(iterator) <= len(snap(iterator)) && index == pos(iterator) && len(converted) == len(snap(iterator)) && fresh(converted)
+//@     invariant forall j :: 0 <= j && j < index ==> converted[j] == snap(iterator)[j]
+//@     decreases len(snap(iterator)) - pos(iterator)
+
+// Queue[V]: nothing, a capacity, a Go array, or CDCN source (at most one data argument); constructing never blocks
+//@ func Queue
+//@   props C20 C05
+//@   nilok
+//@   requires len(arguments) <= 1
+//@   ensures[C20] result != nil && fresh(result)
+//@   ensures[C20] len(arguments) == 0 ==> view(result) == empty()
+//@   ensures[C20] len(arguments) == 1 && typeis(arguments[0], "uint") && unboxInt(arguments[0]) > 0 ==> view(result) == empty() && capacity(result) == unboxInt(arguments[0])
+//@   ensures[C20] len(arguments) == 1 && typeis(arguments[0], sliceof(V)) ==> view(result) == view(unboxSlice(arguments[0]))
+//@   ensures[C20,C05] len(arguments) == 1 && typeis(arguments[0], "string") && len(unboxStr(arguments[0])) > 0 ==> view(result) == view(parsedval(unboxStr(arguments[0])))
 //@   loop 1:
 //@     invariant -1 <= rangeindex && rangeindex <= 0 && rangeindex < len(arguments) && notation != nil
 //@     invariant rangeindex == -1 ==> capacity == 0 && len(values) == 0 && arr(values) == nil && sequence == nil && source == ""
